@@ -45,11 +45,13 @@ PROPS = {
             "io.ReadAll and json.Decoder stream semantics: ReadAll fails on any read fault; Decoder.Decode succeeds iff the first value is complete in the bytes delivered before the fault (validated by every-k fault sweeps)",
             "net/http request construction; the Doer is a stub",
         ],
-        "assumptions": ["the generated helper's part of C12 (non-nil response struct, also when the client getter fails) is checked by the helper engine when built; known finding D8 is recorded there"],
-        "level_text": "Theorems over every (Do result, status, body verdicts, fault position): the model's outcome satisfies the documented classification, the classification is exclusive (exactly one outcome), the body is closed exactly once iff a response was obtained and Close is the last event, data is decoded whenever the outcome is nil or a gqlerror list, non-200 carries the status. Tied to client.go by running the real POST/GET clients on ~3000 (status, body, fault-plan) cases per run incl. exhaustive fault-position and status sweeps, compared in-kernel with the model, plus an independent Go oracle on messages/data/extensions/close counts.",
-        "level_note": "Trusted: Coq kernel; the model is a decision procedure over abstract body verdicts supplied by encoding/json (third party); correspondence is differential testing with instrumented bodies.",
+        "assumptions": ["the helper model (Rt/Helper.v) is three branches whose outcomes are template facts read by the translator; it is compared in-kernel with every observed helper call"],
+        "level_text": "Theorems over every (Do result, status, body verdicts, fault position): the model's outcome satisfies the documented classification, the classification is exclusive (exactly one outcome), the body is closed exactly once iff a response was obtained and Close is the last event, data is decoded whenever the outcome is nil or a gqlerror list, non-200 carries the status. Tied to client.go by running the real POST/GET clients on ~3000 (status, body, fault-plan) cases per run incl. exhaustive fault-position and status sweeps, compared in-kernel with the model, plus an independent Go oracle on messages/data/extensions/close counts. Helper part: for the three ways a call can go (success, client fails, client getter fails) the helper returns exactly the error that occurred and a non-nil struct whenever a client was obtainable; 'also when no client is obtainable' is REFUTED (known finding); observed by calling every generated query/mutation helper of random compiled programs with injected failures.",
+        "level_note": "Trusted: Coq kernel; the model is a decision procedure over abstract body verdicts supplied by encoding/json (third party); correspondence is differential testing with instrumented bodies; one open finding in the helper part.",
         "theorem_status": {"C12_exactly_one": "proved", "C12_classified": "proved", "C12_closed": "proved",
-                           "C12_partial_data_kept": "proved", "C12_status_carried": "proved"},
+                           "C12_partial_data_kept": "proved", "C12_status_carried": "proved",
+                           "C12_helper_returns_the_error_unchanged": "proved", "C12_helper_data_nonnil_partial": "proved (partial: client obtainable)",
+                           "C12_helper_data_nonnil_refuted": "refuted part of the statement (known finding)"},
     },
 }
 
